@@ -162,6 +162,14 @@ Proof.
 Qed.
 Print Assumptions C13_axisymmetric_maps_to_radius.
 
+(* record of the finding fixed in /repo by efb2198 (the code now uses hypot): the former radius sqrt(x*x + y*y)
+   is infinite at the finite point (2^665, 0) and zero at (2^-600, 0), by computation on binary64 *)
+Theorem C13_radius_unfixed_algorithm_refuted :
+  F_same (radius_F_old (F_of_bits (FFin false 4503599627370496 613)) zero) infinity = true
+  /\ F_same (radius_F_old (F_of_bits (FFin false 4503599627370496 (-652))) zero) zero = true.
+Proof. exact radius_F_old_refuted. Qed.
+Print Assumptions C13_radius_unfixed_algorithm_refuted.
+
 (* vectors are rotated by the toroidal angle: off the axis, (c, s) = (x/r, y/r) is a rotation, the only one
    that carries the poloidal-plane point (r, 0, z) to (x, y, z); the returned vector is the wrapped function's
    vector rotated by it (length preserved; radial / toroidal / vertical unit vectors go to the local ones) *)
